@@ -174,9 +174,9 @@ def run_unpatched(seeds, fams):
     return results
 
 
-TIERS = {"quick": {"worlds": ["W1", "W2", "W3"], "dev": {"W1": 2, "W2": 2, "W3": 1}, "orders": {"W0": 600, "W1": 300},
+TIERS = {"quick": {"worlds": ["W1", "W1c", "W2", "W3"], "dev": {"W1": 2, "W1c": 2, "W2": 2, "W3": 1}, "orders": {"W0": 600, "W1": 300},
                    "seeds": 16},
-         "thorough": {"worlds": ["W1", "W2", "W3"], "dev": {"W1": 3, "W2": 3, "W3": 2}, "orders": {"W0": 5000, "W1": 3000},
+         "thorough": {"worlds": ["W1", "W1c", "W2", "W3"], "dev": {"W1": 3, "W1c": 3, "W2": 3, "W3": 2}, "orders": {"W0": 5000, "W1": 3000},
                       "seeds": 128}}
 
 
